@@ -51,6 +51,14 @@ CLAIMED = {
         "design_ref": "DESIGN.md §8 C11",
         "technique": "Lean 4 theorems (R4 parser fold, escape round trip by induction) + T1 correspondence on parse_config and helpers + round-trip / bad-line / hook-fault failing-input search",
     },
+    "C10": {
+        "text": "Proof (Lean 4): over an arbitrary file-system oracle (any layout, symlinks, cwd), _find_project_config returns the nearest ancestor-or-self .dippy that is a regular file (find_nearest/find_none), "
+        "load_config on a readable layout returns the ordered merge user -> project -> env (load_is_merged), and that merge is observably (all five rule lists, log, log-full) the parse of the single text "
+        "user NEWLINE project NEWLINE env with absent layers contributing nothing (layers_concat, via the parser homomorphism and splitLines_join). Aliases and the error branches are tied by correspondence only. "
+        "The model is tied to config.py by running the real load_config on generated directory layouts with every pathlib answer recorded as the FS oracle.",
+        "design_ref": "DESIGN.md §8 C10",
+        "technique": "Lean 4 theorems (layer merge = concatenation via R4, nearest-file walk) + T1 correspondence on real directory layouts + independent concatenation oracle",
+    },
 }
 
 PENDING_REASON = "check not built yet in this round (DESIGN.md §10 build order); no technique other than Lean proof + correspondence is substituted"
